@@ -114,6 +114,12 @@ def run(fn, script, period, phase, variant="rtl", perm_seed=None, reset_midway=F
                 elif k == "tick":
                     _, _, yv, rv, qv = await ctx.tick().sample(y, r, q)
                     obs.append((idx, "tick", T(ctx), yv, rv, qv))
+                elif k == "repeat":
+                    yv, rv, qv = await ctx.tick().sample(y, r, q).repeat(op[1])
+                    obs.append((idx, "tick", T(ctx), yv, rv, qv))
+                elif k == "until":
+                    yv, rv, qv = await ctx.tick().sample(y, r, q).until(sigs[op[1]])
+                    obs.append((idx, "tick", T(ctx), yv, rv, qv))
                 elif k == "delay":
                     await ctx.delay(P(op[1]))
                 elif k == "changed":
@@ -153,17 +159,18 @@ class watchdog:
         self.seconds = seconds
 
     def _fire(self, signum, frame):
-        raise Hang("simulation still running after %d s" % self.seconds)
+        raise Hang("simulation still running after %d CPU seconds" % self.seconds)
 
+    # CPU seconds of this process (ITIMER_PROF), not wall-clock: a starved process on a loaded machine is not a hang
     def __enter__(self):
         import signal
-        self.old = signal.signal(signal.SIGALRM, self._fire)
-        signal.alarm(self.seconds)
+        self.old = signal.signal(signal.SIGPROF, self._fire)
+        signal.setitimer(signal.ITIMER_PROF, self.seconds)
 
     def __exit__(self, *exc):
         import signal
-        signal.alarm(0)
-        signal.signal(signal.SIGALRM, self.old)
+        signal.setitimer(signal.ITIMER_PROF, 0)
+        signal.signal(signal.SIGPROF, self.old)
         return False
 
 
